@@ -390,6 +390,7 @@ func num(n int64) string {
 
 var optionalAxioms = []struct{ sym, text string }{
 	{"(isprint ", isprintDef()},
+	{"(atoi_", "(declare-fun atoi_ok (Str) Bool)\n(declare-fun atoi_val (Str) Int)\n"},
 	{"(ix ", `(declare-fun ix (Int Int) Int)
 (assert (forall ((a Int) (b Int)) (! (= (ix a b) (+ a b)) :pattern ((ix a b)))))
 `},
